@@ -245,3 +245,9 @@ Proof. intros L I Ha. cbn [handle_frame].
     rewrite F in R, E. cbn [andb negb] in R, E. split; [exact R|exact E].
 Qed.
 End Audio.
+
+(** the literals of the EOS test and of the audio writes are the ones the property names: first payload byte, bit 7
+    (frame-number bit 15), cost limit 70; two writes of 320 bytes (2 x 160 int16 samples = one 40 ms frame) *)
+Lemma eos_constants : da_eos_idx = 0 /\ da_eos_mask = 128%N /\ da_eos_cost = 70%Z /\ da_blank_cost = 80%Z /\
+  da_write_bytes = 320 /\ da_writes_per_frame = 2 /\ da_buf_samples = 160 /\ da_off1 = 2 /\ da_off2 = 10.
+Proof. repeat split; reflexivity. Qed.
